@@ -57,6 +57,10 @@ def _sequence(b, F=None, depth=0, members=frozenset(), keep=frozenset()):
             if cb is not None and not cb.is_closure() and cb.get("vis") != "Public" and len(cb.blocks) <= 400 \
                     and cb.path.split("::")[0] == b.path.split("::")[0] and cb.path not in members and cb.path != b.path and n not in keep:
                 out.extend(_sequence(cb, F, depth + 1, members, keep))
+                # .. and the closures written in the helper
+                for c in F.bodies:
+                    if c.is_closure() and c.path.startswith(cb.path + "::{closure#") and c.path not in members:
+                        out.extend(_sequence(c, F, depth + 1, members, keep))
                 continue
             if n and n not in IGN:
                 out.append(n)
@@ -85,12 +89,18 @@ def signature(b, F=None, depth=0, members=frozenset(), keep=frozenset()):
     return tuple(sorted(Counter(items).items()))
 
 
-def _callee_names(b, F):
+def _callee_names(b, F, depth=0):
+    """names of the repository functions a member calls — directly or through the private helpers that would be inlined into its
+    signature (a helper extracted in one copy only must not change which calls all copies have in common)"""
     out = set()
     for x in [b] + [c for c in F.bodies if c.is_closure() and c.path.startswith(b.path + "::{closure#")]:
         for bi, t in x.calls():
-            if F.callee_body(t) is not None:
+            cb = F.callee_body(t)
+            if cb is not None:
                 out.add(callee(t)[2])
+                if depth < 2 and not cb.is_closure() and cb.get("vis") != "Public" and len(cb.blocks) <= 400 \
+                        and cb.path.split("::")[0] == b.path.split("::")[0] and cb.path != b.path:
+                    out |= _callee_names(cb, F, depth + 1)
     return out
 
 
